@@ -253,6 +253,47 @@ def oracle(nf, op):
     return r
 
 
+def free_projection(nf, op):
+    """The statement speaks of the matching objects 'in every frame'.  A signal that belongs to no frame (CanMatrix.signals) and
+    matches the call may therefore be treated like the framed ones or be left alone - the property fixes neither; everything
+    that does NOT match must stay as it is.  Returns (ids of free signals, attribute keys on free signals) that are left open
+    by `op` on matrix `nf`, or None when nothing is."""
+    k = op[0]
+    ids, keys = set(), set()
+    if k == "delsig":
+        ids = {s[0] for s in nf["free"] if glob_oracle(op[1], s[1])}
+    elif k == "delsigobj":
+        ids = {s[0] for s in nf["free"] if s[0] == op[1]}
+    elif k == "rensig":
+        ids = {s[0] for s in nf["free"] if rename_oracle(op[1], op[2], s[1]) != s[1]}
+    elif k == "delsattrs":
+        keys = {a[0] for s in nf["free"] for a in s[3] if a[0] in op[1]}
+    return (ids, keys) if ids or keys else None
+
+
+def project_free(nf, proj):
+    r = copy_nf(nf)
+    r["free"] = [s for s in r["free"] if s[0] not in proj[0]]
+    for s in r["free"]:
+        s[3] = [a for a in s[3] if a[0] not in proj[1]]
+    return r
+
+
+def project_free_groups(groups, proj):
+    """the same projection on the model's answer (groups of tag 7 = free signals: [7, sid, size, payload, n, name.., k, v, ..])"""
+    out = []
+    for g in groups:
+        if g and g[0] == 7:
+            if g[1] in proj[0]:
+                continue
+            n = g[4]
+            head, rest = g[:5 + n], g[5 + n:]
+            pairs = [rest[i:i + 2] for i in range(0, len(rest), 2)]
+            g = head + [x for kv in pairs if kv[0] not in proj[1] for x in kv]
+        out.append(g)
+    return out
+
+
 def in_envelope(nf, op):
     """the property's quantifier: unique frame names, unique signal names per frame, non-empty names and patterns"""
     fn = [f[1] for f in nf["frames"]]
@@ -596,6 +637,7 @@ def run(chk):
         cur = copy_nf(nf0)
         found = None
         searching = True
+        open_choice = []
         changed_steps = 0
         final = None
         for step, op in enumerate(ops):
@@ -618,7 +660,13 @@ def run(chk):
                 if exp is not None:
                     if exp != cur:
                         changed_steps += 1
-                    if after != exp and found is None:
+                    proj = free_projection(cur, op)
+                    if after != exp and proj is not None and project_free(after, proj) == project_free(exp, proj):
+                        # the implementation also handled matching signals that are in no frame: left open by the property
+                        open_choice.append(proj)
+                        if record:
+                            chk.count("free-signal-choice-taken")
+                    elif after != exp and found is None:
                         key = KEY[op[0]]
                         if op[0] == "renframe" and (any("*" in f[1] for f in cur["frames"]) or "*" in op[2]):
                             key = "rename-frame-star-in-name"
@@ -631,9 +679,15 @@ def run(chk):
         bracket = any(o[0] == "delsig" and "[" in o[1] for o in ops)
         if record and bracket:
             chk.count("searched-not-tied-bracket-pattern")      # model/Glob_c17.v has no character classes
-        if record and ops and not bracket:
+        if record and open_choice and len(ops) > 1:
+            chk.count("history-not-tied-after-free-signal-choice")   # later steps (obsolete defines) depend on the choice taken
+        if record and ops and not bracket and not (open_choice and len(ops) > 1):
             exp_out = [[0]] if final == "raise" else [[1]] + groups_of(final)
-            if len(ops) == 1:
+            if len(ops) == 1 and open_choice:
+                # model and implementation are compared modulo the open choice (same projection on both answers)
+                add_model(CMD[ops[0][0]], op_groups(ops[0]) + groups_of(nf0), [[1]] + groups_of(project_free(final, open_choice[0])),
+                          dict(matrix=nf0, op=ops[0], free_projection=[sorted(open_choice[0][0]), sorted(open_choice[0][1])]))
+            elif len(ops) == 1:
                 add_model(CMD[ops[0][0]], op_groups(ops[0]) + groups_of(nf0), exp_out, dict(matrix=nf0, op=ops[0]))
             else:
                 add_model(1712, [[len(ops)]] + [op_history_group(o) for o in ops] + groups_of(nf0), exp_out, dict(matrix=nf0, ops=ops))
@@ -883,6 +937,9 @@ def run(chk):
         a = core.parse_out(out[i])
         if lines[i].startswith("6b1 "):           # 1713 glob_frames/glob_signals: a lookup result is compared as a set
             a = [sorted(g) for g in a]
+        pr = info[i].get("free_projection") if isinstance(info[i], dict) else None
+        if pr and a and a[0] == [1]:
+            a = [[1]] + project_free_groups(a[1:], (set(pr[0]), set(pr[1])))
         return a
     differing = [i for i, exp in enumerate(expect) if answer(i) != exp]
     if differing and "rename-frame-star-in-name" in known_keys:
@@ -925,7 +982,8 @@ def run(chk):
     chk.ties["spec_vs_oracle"] = {"suite": "spec_op (right-hand sides of the theorems, cmd 1714) vs the Python oracle", "cases": len(spec_lines),
                                   "disagreements": bad}
     # in-Coq shard
-    pool = [(l, e) for i, (l, e) in enumerate(zip(lines, expect)) if len(l) < 900 and i not in explained_idx and not l.startswith("6b1 ")] \
+    pool = [(l, e) for i, (l, e) in enumerate(zip(lines, expect)) if len(l) < 900 and i not in explained_idx and not l.startswith("6b1 ")
+            and not (isinstance(info[i], dict) and info[i].get("free_projection"))] \
         + list(zip(glob_lines[:2000], glob_expect[:2000]))
     idx = rng.sample(range(len(pool)), min(300, len(pool)))
     shard = []
